@@ -33,7 +33,7 @@ TRUSTED_BASE = [
     "harness/dxfparse.py validator for the saved file",
 ]
 ASSUMPTIONS = ["faults are applied at the tag level to files written by ezdxf itself"]
-OPEN = ["audit_sound is stated for the decidable predicate AuditClean; that every API-built document without unlinked entities, stale group members, empty groups and user blocks named *Paper_Space... satisfies it is corresponded/oracled, not proved",
+OPEN = ["no false positives over histories is proved (audit_sound_history, audit_sound_no_unlink) relative to decidable predicates on the REACHED state: defined block references, valid non-empty groups, no user block named *Paper_Space... (RefsValid) - these are not invariants of the API (add_blockref accepts undefined names, group members can be moved away) and are corresponded/oracled; 'every entity linked' IS proved for all histories without unlink_entity",
         "missing SEQEND repair, duplicate / invalid handles, dictionary entries to dead objects, undefined linetype/style/layer names, invalid attribute values: oracle only (fault catalogue)",
         "F24 (partially fixed): audit still raises for two duplicate-handle constellations on structural objects"]
 
